@@ -11,6 +11,13 @@ NOTES = {
     'c03_a': 'missed at first (C03 built typed classes only; C15 caught the same kind of slip); caught after C03 also builds with_type_hints=False',
     'c04_b': 'missed at first (C04 solved with offset=0 only; C02\'s guard slice covers the same ordering); caught after C04 solves feasible and infeasible periods with offsets too',
     'c10_a': 'missed at first (no falsy label inside a span); caught after adding span types range-through-zero and [\'a\', \'\', 0.0, (), \'e\'] to the C10 replay',
+    'r2a_1': 'missed at first (no object history); caught after the C05 replay also runs every behaviour on an object that was solved and then reindexed',
+    'r2a_3': 'strengthened from its description before the evaluation ran: values at the top of the float64 range (scale 2**1023) in the two-variable Solver slice',
+    'r2b_4': 'strengthened from its description before the evaluation ran: fuzz seed scripts with attribute / conversion / format-spec brace groups',
+    'r2b_6': 'strengthened from its description before the evaluation ran: a converter that returns the same text for every symbol',
+    'r2c_3': 'strengthened from its description before the evaluation ran: run-time edits of the instance alias map / preferred names as opaque extras in C11 histories',
+    'r2c_4': 'strengthened from its description before the evaluation ran: label-slice reads on the original before and on the result after reindex',
+    'r2c_5': 'strengthened from its description before the evaluation ran: underscore-prefixed and non-ASCII variable names in eval()',
     'c14_b': 'missed at first (comments of the catalogue had balanced brackets); caught after the comments layout got unmatched brackets',
 }
 
